@@ -70,3 +70,15 @@ Proof.
   rewrite H. replace (existsb _ splits) with true; [reflexivity|].
   symmetry. apply existsb_exists. exists s. split; [exact Hin|apply N.eqb_refl].
 Qed.
+
+(* the verify-only locator names the BSV/BCH fork point and the BTC fork point, each once *)
+Theorem verify_only_locator_value :
+  verify_only_locator = [0x00000000000000000102d94fde9bd0807a2cc7582fe85dd6349b73ce4e8d9322;
+                         0x0000000000000000011865af4122fe3b144e2cbeea86142e8ff2fb4107352d43] /\
+  NoDup verify_only_locator.
+Proof.
+  split; [vm_compute; reflexivity|].
+  replace verify_only_locator with [0x00000000000000000102d94fde9bd0807a2cc7582fe85dd6349b73ce4e8d9322;
+                         0x0000000000000000011865af4122fe3b144e2cbeea86142e8ff2fb4107352d43] by (vm_compute; reflexivity).
+  constructor; [intros [H|[]]; discriminate|constructor; [intros []|constructor]].
+Qed.
